@@ -35,6 +35,8 @@ type refFunc struct {
 	Sig    string   `json:"sig"`
 	Flat   string   `json:"flat"` // receiver type (if any) followed by the parameter types, then the results
 	Tokens []string `json:"tokens"`
+	Locals []refField `json:"locals,omitempty"` // named address-taken locals (of the function and its literals), in order
+	Names  []string   `json:"names,omitempty"`  // every name declared inside the function (parameters, results, locals)
 }
 
 type refField struct {
@@ -58,6 +60,7 @@ type renameTable struct {
 	funcAlias   map[*ssa.Function]string // current function -> reference full name
 	funcByRef   map[string]*ssa.Function // reference full name -> current function
 	fieldAlias  map[*types.Var]string    // current field -> reference name
+	localAlias  map[*ssa.Alloc]string    // renamed local -> reference name
 	paramPerm   map[*ssa.Function][]int  // current parameter index -> reference index, for functions whose parameters were only reordered
 	groupField  map[*types.Var]bool      // current field of a new struct type that only groups reference fields
 	typeNew2Old map[string]string        // "pkgpath.New" -> "pkgpath.Old"
@@ -94,7 +97,7 @@ func isNewHelperOrInside(f *ssa.Function) bool {
 	return isNewHelper(f)
 }
 
-var curRenames = &renameTable{funcAlias: map[*ssa.Function]string{}, funcByRef: map[string]*ssa.Function{}, fieldAlias: map[*types.Var]string{}, groupField: map[*types.Var]bool{}, paramPerm: map[*ssa.Function][]int{}, typeNew2Old: map[string]string{}, typeOld2New: map[string]string{}}
+var curRenames = &renameTable{funcAlias: map[*ssa.Function]string{}, funcByRef: map[string]*ssa.Function{}, fieldAlias: map[*types.Var]string{}, groupField: map[*types.Var]bool{}, paramPerm: map[*ssa.Function][]int{}, localAlias: map[*ssa.Alloc]string{}, typeNew2Old: map[string]string{}, typeOld2New: map[string]string{}}
 
 func isIdentChar(c byte) bool {
 	return c == '_' || c >= '0' && c <= '9' || c >= 'a' && c <= 'z' || c >= 'A' && c <= 'Z'
@@ -250,7 +253,7 @@ func buildInventory(P *Program) *refInventory {
 		} else if f.Object() != nil && f.Object().Pkg() != nil {
 			pkg = f.Object().Pkg().Path()
 		}
-		inv.Funcs[f.String()] = refFunc{Pkg: pkg, Recv: recvTypeName(f), Name: f.Name(), Sig: sigString(f), Flat: flatSigString(f), Tokens: funcTokens(f)}
+		inv.Funcs[f.String()] = refFunc{Pkg: pkg, Recv: recvTypeName(f), Name: f.Name(), Sig: sigString(f), Flat: flatSigString(f), Tokens: funcTokens(f), Locals: namedLocals(f, nil), Names: declaredNames(f)}
 	}
 	for _, p := range P.SSA.AllPackages() {
 		if !strings.HasPrefix(p.Pkg.Path(), modPath) {
@@ -333,7 +336,7 @@ func jaccard(a, b []string) float64 {
 
 // loadRenames compares the analysed program with the reference inventory.
 func loadRenames(P *Program, path string) {
-	curRenames = &renameTable{funcAlias: map[*ssa.Function]string{}, funcByRef: map[string]*ssa.Function{}, fieldAlias: map[*types.Var]string{}, groupField: map[*types.Var]bool{}, paramPerm: map[*ssa.Function][]int{}, typeNew2Old: map[string]string{}, typeOld2New: map[string]string{}}
+	curRenames = &renameTable{funcAlias: map[*ssa.Function]string{}, funcByRef: map[string]*ssa.Function{}, fieldAlias: map[*types.Var]string{}, groupField: map[*types.Var]bool{}, paramPerm: map[*ssa.Function][]int{}, localAlias: map[*ssa.Alloc]string{}, typeNew2Old: map[string]string{}, typeOld2New: map[string]string{}}
 	haveReference = false
 	curProgram = P
 	b, err := os.ReadFile(path)
@@ -592,6 +595,15 @@ func loadRenames(P *Program, path string) {
 		}
 	}
 
+	// 4. locals of functions the reference knows (under their own or an aliased name)
+	for k, f := range curFn {
+		if rf, ok := ref.Funcs[k]; ok {
+			aliasLocals(t, f, rf, mapTypes)
+		} else if old, ok := t.funcAlias[f]; ok {
+			aliasLocals(t, f, ref.Funcs[old], mapTypes)
+		}
+	}
+
 	// printed-name replacements, longest first
 	for f, old := range t.funcAlias {
 		t.strRepl = append(t.strRepl, [2]string{shortenFull(f.String()), shortenFull(old)}, [2]string{f.String(), old})
@@ -794,4 +806,108 @@ func splitFlat(sig string) ([]string, string) {
 		}
 	}
 	return params, ""
+}
+
+// namedLocals lists the address-taken named locals of f and of the literals inside it, in order; into (if not
+// nil) receives the allocations in the same order.
+func namedLocals(f *ssa.Function, into *[]*ssa.Alloc) []refField {
+	var out []refField
+	var walk func(g *ssa.Function)
+	walk = func(g *ssa.Function) {
+		for _, b := range g.Blocks {
+			for _, ins := range b.Instrs {
+				a, ok := ins.(*ssa.Alloc)
+				if !ok || a.Comment == "" || a.Comment == "complit" || a.Comment == "varargs" || a.Comment == "slicelit" || a.Heap && strings.HasPrefix(a.Comment, "new") {
+					continue
+				}
+				out = append(out, refField{a.Comment, types.TypeString(a.Type(), func(p *types.Package) string { return p.Path() })})
+				if into != nil {
+					*into = append(*into, a)
+				}
+			}
+		}
+		for _, an := range g.AnonFuncs {
+			walk(an)
+		}
+	}
+	walk(f)
+	return out
+}
+
+// aliasLocals: within a function known to the reference, the k-th local of a type answers to the name the k-th
+// local of that type has in the reference, when both have the same number of locals of that type.
+func aliasLocals(t *renameTable, f *ssa.Function, rf refFunc, mapTypes func(string) string) {
+	var allocs []*ssa.Alloc
+	cur := namedLocals(f, &allocs)
+	byType := func(l []refField, mt func(string) string) map[string][]int {
+		m := map[string][]int{}
+		for i, x := range l {
+			m[mt(x.Type)] = append(m[mt(x.Type)], i)
+		}
+		return m
+	}
+	ct, rt := byType(cur, mapTypes), byType(rf.Locals, func(s string) string { return s })
+	for typ, ci := range ct {
+		ri := rt[typ]
+		if len(ri) != len(ci) {
+			continue
+		}
+		// same set of names: nothing was renamed (only moved)
+		names := map[string]int{}
+		for _, i := range ci {
+			names[cur[i].Name]++
+		}
+		for _, i := range ri {
+			names[rf.Locals[i].Name]--
+		}
+		same := true
+		for _, n := range names {
+			if n != 0 {
+				same = false
+			}
+		}
+		if same {
+			continue
+		}
+		// a rename introduces a name the reference function does not declare and retires one the current function
+		// no longer declares; a local that merely stands where another variable of the function stood (a different
+		// variable captured or addressed) is not a rename
+		refDeclared, curDeclared := map[string]bool{}, map[string]bool{}
+		for _, n := range rf.Names {
+			refDeclared[n] = true
+		}
+		for _, n := range declaredNames(f) {
+			curDeclared[n] = true
+		}
+		for k, i := range ci {
+			if old := rf.Locals[ri[k]].Name; old != cur[i].Name && !refDeclared[cur[i].Name] && !curDeclared[old] {
+				t.localAlias[allocs[i]] = old
+			}
+		}
+	}
+}
+
+// declaredNames lists every name declared inside f (parameters, results, locals of all nested scopes), sorted.
+func declaredNames(f *ssa.Function) []string {
+	obj, ok := f.Object().(*types.Func)
+	if !ok || obj.Scope() == nil {
+		return nil
+	}
+	set := map[string]bool{}
+	var walk func(sc *types.Scope)
+	walk = func(sc *types.Scope) {
+		for _, n := range sc.Names() {
+			set[n] = true
+		}
+		for i := 0; i < sc.NumChildren(); i++ {
+			walk(sc.Child(i))
+		}
+	}
+	walk(obj.Scope())
+	var out []string
+	for n := range set {
+		out = append(out, n)
+	}
+	sort.Strings(out)
+	return out
 }
